@@ -42,6 +42,9 @@ M  mcmc:      GPRegressionMCMC: for every retained sample i, state i must report
               nlml, sample_marginals (scripted z), sample_joint and the model's predict()[i] are checked
               by stages K, J, P with the reference computed from sample i; after fit and after
               recompute_states (new data, fantasy blocks of n_samples*nf columns, assigned samples).
+H  history:   GaussianProcessRegression through fit / recompute_states sequences (grown, replaced, re-labelled
+              data; all or some optimiser restarts made to raise): after every call the state holds exactly
+              the data passed, and stages K, J, P hold for it under the parameters reported after the call.
 I  incremental: update() / sample_and_update() / expand_fantasies() chains; dense check of intermediate
               and final states; comparison with the state recomputed from scratch (tolerance widened by
               the first-order effect of the kernel round-off band and of the documented regulariser
@@ -71,7 +74,11 @@ import numpy as np
 ID = "C08"
 LEVEL = "exploration"
 RULE = (
-    "case = seeded (kernel kind in {matern, gpr, jitter-regime, warped, product, range, expdecay, mcmc = "
+    "case = seeded (kernel kind in {matern, gpr, jitter-regime, warped, product, range, expdecay, history = "
+    "GaussianProcessRegression driven through 2..4 fit / recompute_states calls with grown, replaced or re-labelled "
+    "data, n_starts 1..3, with an injected optimiser fault (scipy.optimize.minimize raises on all / on some "
+    "restarts) in part of the fit calls, the single posterior state checked after EVERY call against the dense "
+    "posterior of the data passed to that call under the parameters the model then reports; mcmc = "
     "GPRegressionMCMC with a small MCMCConfig (2..12 samples, burn-in, thinning; 1..6 retained states), fit then "
     "recompute_states on new data / fantasy matrices, optionally with in-box hyperparameter samples assigned by "
     "the test, every state checked against the dense definition with its OWN sample; composed = "
@@ -122,6 +129,12 @@ ASSUMPTIONS = [
     "model.samples[i], and state.kernel / state.mean get_params() and state.noise_variance must report exactly "
     "that sample; a failure of the slice sampler in fit() is inconclusive (fitting is not constrained by C08); "
     "hostile parameter regions are reached by assigning model.samples (public attribute) before recompute_states",
+    "history: the optimiser fault is injected by replacing scipy.optimize.minimize for the duration of one fit() "
+    "call (FloatingPointError on the chosen restarts); the model picks its own parameters there, so the reference "
+    "uses model.get_params() read after the call (the kernel object is still checked against the textbook formula "
+    "for those values)",
+    "sample_and_update: with a real numpy RandomState the harness replays a twin generator: the m targets must use "
+    "m consecutive draws and the generator must have advanced by exactly m draws (also with mean_impute_mask)",
     "FabolasKernelFunction factors are generated only with INCLUDE_FABOLAS (its forward() ignores u2 and u3: "
     "candidate finding C08-F2)",
     "exponential-decay resource kernel and its mean function: values are taken from the objects (self-"
@@ -196,7 +209,7 @@ def _imports():
 
 # ----------------------------------------------------------------------------------- sizes / floors
 KINDS = ["matern", "jitter", "gpr", "matern", "jitter", "warped", "matern", "jitter", "product", "gpr",
-         "jitter", "range", "matern", "jitter", "expdecay", "warped", "composed", "composed", "composed", "mcmc", "mcmc"]
+         "jitter", "range", "matern", "jitter", "expdecay", "warped", "composed", "composed", "composed", "mcmc", "mcmc", "history", "history"]
 
 
 def _comp_classes():
@@ -204,7 +217,7 @@ def _comp_classes():
 
 
 def cases(tier, seed):
-    n = 1400 if tier == "quick" else 20000
+    n = 1500 if tier == "quick" else 20000
     out = []
     classes = _comp_classes()
     for i in range(n):
@@ -217,8 +230,8 @@ def cases(tier, seed):
 
 def floors(tier):
     # measured on the unchanged tree, seeds 0..4 (quick: minimum over the seeds, floors at <= 75 % of it;
-    # the six cells DESIGN names are kept at >= 100). thorough has 14.3x the cases: x11.
-    f = 1 if tier == "quick" else 11
+    # the six cells DESIGN names are kept at >= 100). thorough has 13.3x the cases: x10.
+    f = 1 if tier == "quick" else 10
     q = {
         "cell:ard": 100, "cell:cov_scale_ne_1": 100, "cell:fantasies_gt1": 100, "cell:ntest_gt1": 100,
         "cell:jitter_added": 100, "cell:chain_ge5": 100,
@@ -231,6 +244,12 @@ def floors(tier):
         "cell:kind:mcmc": 100, "mcmc:states_checked": 350, "cell:mcmc_ge2_distinct_samples": 70,
         "decided:mcmc_state_params": 350, "mcmc:recompute_states": 60, "mcmc:recompute_fantasies": 20,
         "mcmc:assigned_samples": 30, "decided:sample_marginals": 200, "decided:mcmc_model_predict": 100,
+        "cell:kind:history": 100, "decided:state_holds_data_passed": 800, "decided:states_after_fit": 80,
+        "decided:states_after_recompute_states": 45, "decided:states_after_refit_with_all_restarts_failed": 70,
+        "decided:states_after_refit_with_all_restarts_failed:data_changed": 55,
+        "decided:states_after_refit_with_some_restarts_failed": 45,
+        "decided:states_after_refit_with_some_restarts_failed:data_changed": 15, "mcmc:refit_grown_data": 20,
+        "decided:sample_and_update_generator_advance": 450, "decided:sample_and_update_independent_columns": 120,
         "cell:kind:composed": 120, "decided:diagonal_flag": 1000, "diagonal_flag:True": 150,
         "diagonal_flag:False": 600, "roundtrip:composed": 50,
         "decided:params_roundtrip": 400, "roundtrip:gpr": 35,
@@ -1397,6 +1416,48 @@ def check_sample_marginals(o, tag, state, Xt, dense, Kxs_c, kss_c, mstar, m, flo
             return
 
 
+def _state_vs_dense(o, state, ib, c, noise, mval, d, X, Xt, Y, rng, tag, floor, counted, extra, kind):
+    """One GaussProcPosteriorState of a model against the dense posterior of (X, Y) for a Matern-5/2 kernel with
+    inverse bandwidths ib, covariance scale c, noise variance noise and constant mean mval: the state must hold
+    the data, its kernel object must be that kernel (stage K), its factor that of K + s I (stage J), and
+    predict / nlml / sample_marginals / sample_joint follow (stage P). Returns (dense, KS, mstar) or None."""
+    F = np.asarray(state.features)
+    o.count("decided:state_holds_data_passed")
+    if F.shape != X.shape or not np.array_equal(F, X):
+        o.violate("model_states", f"{kind}:state_holds_other_data_than_passed:{tag}",
+                  {"state_features_shape": list(F.shape), "data_shape": list(X.shape), **extra})
+        return None
+    Ms = Model()
+    Ms.kind, Ms.d, Ms.kernel, Ms.kscale, Ms.jf = kind, d, state.kernel, c, 1.0
+    Ms.own = (lambda ib_, c_: (lambda X1, X2, off: dg.matern52(X1, X2, ib_, c_, off)))(ib, c)
+    Ms.rfparts = [(slice(0, d), ib)]
+    Ms.pars = dict({"ib": np.asarray(ib).tolist(), "c": c, "phase": tag}, **extra)
+    KS = stage_kernel(o, Ms, X, Xt, rng, False)
+    if not KS["diag_ok"]:
+        return None
+    D, info = stage_chol(o, tag, state.chol_fact, KS["Kxx"], noise, True)
+    if D is None:
+        return None
+    m = Y.shape[1]
+    dense = Dense(KS["Kxx"], D, Y - mval)
+    if not dense.ok:
+        o.inconclusive("reference_cholesky_failed")
+        return None
+    if not dense.trust:
+        o.inconclusive("cond_too_large")
+    mstar = np.ones(Xt.shape[0]) * mval
+    mu, var = _call(o, "predict", state.predict, Xt, _trusted=dense.trust)
+    out = check_predict(o, tag, mu, var, dense, KS["Kxt"], KS["dT"], mstar, m, floor, extra=extra)
+    if out is not None:
+        counted[0] = True
+    if m == 1:
+        check_nlml(o, tag, _call(o, "neg_log_likelihood", state.neg_log_likelihood), dense)
+    check_sample_marginals(o, tag, state, Xt, dense, KS["Kxt"], KS["dT"], mstar, m, floor, rng)
+    if rng.random() < 0.4:
+        check_joint(o, tag, state, Xt, dense, KS["Kxt"], KS["Ktt"], mstar, m)
+    return dense, KS, mstar
+
+
 def _parse_sample(model, vec):
     """Split a hyperparameter vector of the MCMC model (model.samples[i]) by the likelihood's public
     param_encoding_pairs(): noise_variance, covariance_scale, inverse_bandwidths, mean_value."""
@@ -1463,37 +1524,14 @@ def _mcmc_check_states(o, model, X, Xt, Ycols, d, ard, has_cs, rng, tag, floor, 
         ib = ps["inverse_bandwidths"] if ps["inverse_bandwidths"].size == d else np.repeat(ps["inverse_bandwidths"], d)
         c = float(ps["covariance_scale"][0]) if has_cs else 1.0
         noise, mval = float(ps["noise_variance"][0]), float(ps["mean_value"][0])
-        Ms = Model()
-        Ms.kind, Ms.d, Ms.kernel, Ms.kscale, Ms.jf = "mcmc", d, state.kernel, c, 1.0
-        Ms.own = (lambda ib_, c_: (lambda X1, X2, off: dg.matern52(X1, X2, ib_, c_, off)))(ib, c)
-        Ms.rfparts = [(slice(0, d), ib)]
-        Ms.pars = {"ib": ib.tolist(), "c": c, "state": i, "phase": tag}
-        KS = stage_kernel(o, Ms, X, Xt, rng, False)
-        o.count("mcmc:states_checked")
-        if not KS["diag_ok"]:
-            continue
-        D, info = stage_chol(o, f"mcmc_{tag}", state.chol_fact, KS["Kxx"], noise, True)
-        if D is None:
-            continue
         Y = Ycols(i)
         m = Y.shape[1]
-        dense = Dense(KS["Kxx"], D, Y - mval)
-        if not dense.ok:
-            o.inconclusive("reference_cholesky_failed")
+        o.count("mcmc:states_checked")
+        res = _state_vs_dense(o, state, ib, c, noise, mval, d, X, Xt, Y, rng, f"mcmc_{tag}", floor, counted,
+                              {"state": i, "n_states": len(states)}, "mcmc")
+        if res is None:
             continue
-        if not dense.trust:
-            o.inconclusive("cond_too_large")
-        mstar = np.ones(Xt.shape[0]) * mval
-        mu, var = _call(o, "predict", state.predict, Xt)
-        out = check_predict(o, f"mcmc_{tag}", mu, var, dense, KS["Kxt"], KS["dT"], mstar, m, floor,
-                            extra={"state": i, "n_states": len(states)})
-        if out is not None:
-            counted[0] = True
-        if m == 1:
-            check_nlml(o, f"mcmc_{tag}", _call(o, "neg_log_likelihood", state.neg_log_likelihood), dense)
-        check_sample_marginals(o, f"mcmc_{tag}", state, Xt, dense, KS["Kxt"], KS["dT"], mstar, m, floor, rng)
-        if rng.random() < 0.4:
-            check_joint(o, f"mcmc_{tag}", state, Xt, dense, KS["Kxt"], KS["Ktt"], mstar, m)
+        dense, KS, mstar = res
         # the model's own predict (one entry per state, means flattened for a single column)
         pm, pv = preds[i]
         pm = np.asarray(pm, dtype=np.float64)
@@ -1582,6 +1620,17 @@ def _run_mcmc(spec, o, sig):
         o.count("mcmc:recompute_states")
         phases.append("recompute" + (f"_nf{nf}" if nf else ""))
         _mcmc_check_states(o, model, Xn, Xt, cols, d, ard, has_cs, rng, "recompute", FLOOR, counted)
+    # ---- a second fit on grown data: the states must be those of the data passed to THIS call
+    if bool(spec.get("refit", rng.random() < 0.3)):
+        n3 = int(rng.integers(1, 9))
+        X3, _, Y3, n3, _, _, _, _ = gen_inputs(rng, dict(sp, n=n3, nt=nt), M)
+        Xg, Yg = np.concatenate([X, X3], axis=0), np.concatenate([Y, Y3], axis=0)
+        model.mcmc_config = cfg
+        _call(o, "GPRegressionMCMC.fit", model.fit, {"features": Xg.copy(), "targets": Yg.copy()}, _trusted=False)
+        o.count("mcmc:refit_grown_data")
+        phases.append("refit")
+        if len(model.samples) > 0:
+            _mcmc_check_states(o, model, Xg, Xt, lambda i: Yg, d, ard, has_cs, rng, "refit", FLOOR, counted)
     if counted[0]:
         o.count("cell:kind:mcmc")
         if distinct >= 2:
@@ -1598,12 +1647,145 @@ def _run_mcmc(spec, o, sig):
                 "sample0": np.asarray(model.samples[0]).reshape(-1).tolist()}
 
 
+# ----------------------------------------------------------------------------------- model-level histories
+class _OptimizerFault:
+    """Injected optimiser fault for the duration of one fit() call: scipy.optimize.minimize (the library calls
+    it once per restart) raises FloatingPointError on the chosen restarts, otherwise runs unchanged."""
+
+    def __init__(self, fail):
+        self.fail = fail  # "all" or a set of restart indices
+        self.calls, self.raised = 0, 0
+
+    def __enter__(self):
+        import scipy.optimize as so
+
+        self._so, self._orig = so, so.minimize
+
+        def minimize(*a, **kw):
+            idx = self.calls
+            self.calls += 1
+            if self.fail == "all" or idx in self.fail:
+                self.raised += 1
+                raise FloatingPointError("injected: numerical failure in the optimiser (restart %d)" % idx)
+            return self._orig(*a, **kw)
+
+        so.minimize = minimize
+        return self
+
+    def __exit__(self, *exc):
+        self._so.minimize = self._orig
+        return False
+
+
+def _run_history(spec, o, sig):
+    """GaussianProcessRegression driven as a searcher drives it: fit(data_1), then fit / recompute_states with
+    grown or replaced data, with and without an injected optimiser fault (all restarts raise / some restarts
+    raise). After EVERY call model.states must be the dense posterior of the data passed to that call under the
+    parameters the model reports after the call."""
+    G = _imports()
+    rng = np.random.default_rng(int(spec["seed"]))
+    FLOOR = G["constants"].MIN_POSTERIOR_VARIANCE
+    d = int(spec.get("d", rng.integers(1, 5)))
+    ard = bool(spec.get("ard", rng.random() < 0.5)) and d > 1
+    has_cs = bool(spec.get("has_cs", rng.random() < 0.85))
+    zero = bool(spec.get("zero_mean", rng.random() < 0.3))
+    M = Model()
+    M.kind, M.d, M.mean_kind, M.ysc = "history", d, "zero", float(10 ** rng.uniform(-0.5, 0.5))
+    M.mean_ref = lambda X_: np.zeros(X_.shape[0])
+    sp = dict(spec, m=1)
+    nt = int(rng.integers(1, 7))
+    n_starts = int(spec.get("n_starts", rng.integers(1, 4)))
+    kernel = G["Matern52"](dimension=d, ARD=ard, has_covariance_scale=has_cs)
+    mean = G["ZeroMeanFunction"]() if zero else G["ScalarMeanFunction"]()
+    cfg = G["constants"].OptimizationConfig(lbfgs_tol=1e-6, lbfgs_maxiter=int(rng.integers(3, 16)), verbose=False,
+                                            n_starts=n_starts)
+    model = _call(o, "GaussianProcessRegression", G["GaussianProcessRegression"], kernel=kernel, mean=mean,
+                  optimization_config=cfg, random_seed=int(rng.integers(0, 2 ** 31 - 1)),
+                  fit_reset_params=bool(rng.random() < 0.5))
+    n_calls = int(spec.get("calls", rng.integers(2, 5)))
+    X = Y = Xt = None
+    counted = [False]
+    hist = []
+    for step in range(n_calls):
+        n_new = int(rng.integers(2, 11)) if step == 0 else int(rng.integers(1, 7))
+        Xn, Xt_, Yn, n_new, _, _, _, _ = gen_inputs(rng, dict(sp, n=n_new, nt=nt), M)
+        if step == 0:
+            X, Y, Xt = Xn, Yn, Xt_
+        elif rng.random() < 0.75:
+            X, Y = np.concatenate([X, Xn], axis=0), np.concatenate([Y, Yn], axis=0)  # grown data
+        elif rng.random() < 0.5:
+            X, Y = Xn, Yn  # replaced data
+        else:
+            Y = Y + rng.normal(size=Y.shape) * 0.3 * M.ysc  # same inputs, new targets
+        op = "fit" if (step == 0 or rng.random() < 0.7) else "recompute_states"
+        fault = "none"
+        data = {"features": X.copy(), "targets": Y[:, 0].copy() if rng.random() < 0.5 else Y.copy()}
+        if op == "fit":
+            u = rng.random()
+            if step > 0 and u < 0.45 or step == 0 and u < 0.15:
+                fault = "all"
+            elif u < 0.7 and n_starts >= 2:
+                fault = "some"
+            if fault == "none":
+                _call(o, "GaussianProcessRegression.fit", model.fit, data)
+            else:
+                fail = "all"
+                if fault == "some":
+                    k_ = int(rng.integers(1, n_starts))
+                    fail = set(int(x) for x in rng.choice(n_starts, size=k_, replace=False))
+                with _OptimizerFault(fail) as inj:
+                    _call(o, "GaussianProcessRegression.fit", model.fit, data)
+                if inj.calls != n_starts or inj.raised != (n_starts if fault == "all" else len(fail)):
+                    o.inconclusive("optimizer_fault_not_injected_as_planned")
+                    fault = "unplanned"
+        else:
+            _call(o, "GaussianProcessRegression.recompute_states", model.recompute_states, data)
+        hist.append(op + ":" + fault)
+        o.ev("history", step, op, fault, X.shape[0])
+        # the model's current parameters (chosen by the model: get_params is the only source)
+        g = model.get_params()
+        ib = (np.array([_f(g[f"kernel_inv_bw{i}"]) for i in range(d)]) if ard else np.array([_f(g["kernel_inv_bw"])] * d))
+        c = _f(g["kernel_covariance_scale"]) if has_cs else 1.0
+        noise = _f(g["noise_variance"])
+        mval = 0.0 if zero else _f(g["mean_mean_value"])
+        states = model.states
+        key = {"fit:none": "decided:states_after_fit", "fit:all": "decided:states_after_refit_with_all_restarts_failed",
+               "fit:some": "decided:states_after_refit_with_some_restarts_failed",
+               "recompute_states:none": "decided:states_after_recompute_states"}.get(op + ":" + fault)
+        tag = {"fit:none": "after_fit", "fit:all": "after_fit_all_restarts_failed", "fit:some": "after_fit_some_restarts_failed",
+               "recompute_states:none": "after_recompute_states"}.get(op + ":" + fault, "after_fit")
+        if states is None or len(states) != 1:
+            o.violate("model_states", f"history:no_single_posterior_state:{tag}", {"states": None if states is None else len(states)})
+            raise Raised("history")
+        res = _state_vs_dense(o, states[0], ib, c, noise, mval, d, X, Xt, Y, rng, tag, FLOOR, counted,
+                              {"step": step, "history": list(hist), "n": int(X.shape[0])}, "history")
+        if key:
+            o.count(key)
+            if step > 0 and key.startswith("decided:states_after_refit"):
+                o.count(key + ":data_changed")
+        if res is not None:
+            dense, KS, mstar = res
+            pm, pv = _call(o, "GaussianProcessRegression.predict", model.predict, Xt)[0]
+            check_predict(o, "model_" + tag, np.asarray(pm, dtype=np.float64).reshape(Xt.shape[0], 1), pv, dense,
+                          KS["Kxt"], KS["dT"], mstar, 1, FLOOR, extra={"step": step})
+    if counted[0]:
+        o.count("cell:kind:history")
+        if ard:
+            o.count("cell:ard")
+    sig.update(d=d, ard=ard, has_cs=has_cs, zero=zero, n_starts=n_starts, hist=hist, n_final=int(X.shape[0]))
+    sig["nontrivial"] = X.shape[0] >= 2 and len(hist) >= 2
+    o.sample = {"kind": "history", "d": d, "ard": ard, "n_starts": n_starts, "history": hist, "n_final": int(X.shape[0]),
+                "params": {kk: _f(v) for kk, v in model.get_params().items()}}
+
+
 def run_case(spec):
     o = Obs()
     sig = {"kind": spec.get("kind")}
     try:
         if spec.get("kind") == "mcmc":
             _run_mcmc(spec, o, sig)
+        elif spec.get("kind") == "history":
+            _run_history(spec, o, sig)
         else:
             _run(spec, o, sig)
     except Raised:
@@ -1758,14 +1940,31 @@ def _run(spec, o, sig):
                 mask = None
                 if rng.random() < 0.4:
                     mask = rng.random(size=m) < 0.5
-                rs = ScriptedNormal([z.copy()])
+                # either a scripted stand-in returning z, or a real RandomState that the harness replays with a
+                # twin: the m targets must use m consecutive draws of the generator that was passed
+                replay = bool(spec.get("replay", rng.random() < 0.6))
+                if replay:
+                    sd_ = int(rng.integers(0, 2 ** 31 - 1))
+                    rs, twin = np.random.RandomState(sd_), np.random.RandomState(sd_)
+                    z = twin.normal(size=(1, m))
+                    if mask is None and m > 1 and len(set(z.reshape(-1).tolist())) < m:
+                        replay = False
+                else:
+                    rs = ScriptedNormal([z.copy()])
                 tgt_code, Snew = _call(o, "sample_and_update", S.sample_and_update, feat,
                                        mean_impute_mask=mask, random_state=rs)
                 o.count("chain:sample_and_update")
                 tgt_code = np.asarray(tgt_code, dtype=np.float64)
-                if rs.bad or rs.arrays:
-                    o.inconclusive("scripted_random_state_not_consumed_as_expected")
-                    return
+                if isinstance(rs, ScriptedNormal):
+                    if rs.bad or rs.arrays:
+                        o.inconclusive("scripted_random_state_not_consumed_as_expected")
+                        return
+                else:
+                    o.count("decided:sample_and_update_generator_advance")
+                    nxt_code, nxt_twin = float(rs.normal()), float(twin.normal())
+                    if nxt_code != nxt_twin:
+                        o.violate("sample_and_update", "sample_and_update:random_state_not_advanced_by_m_draws",
+                                  {"columns": m, "masked": mask is not None})
                 if tgt_code.shape != (1, m):
                     o.violate("sample_and_update", "sample_and_update:bad_target_shape",
                               {"shape": list(tgt_code.shape), "want": [1, m]})
@@ -1791,12 +1990,19 @@ def _run(spec, o, sig):
                     tol_v = dense.rel * q64 + TOL["Ca"] * EPS * abs(kself)
                     tol_t = tol_m + np.abs(zz) * (tol_v / (2 * std) + 4 * EPS * std)
                     o.count("decided:sample_and_update_target")
+                    if m > 1 and mask is None and not isinstance(rs, ScriptedNormal):
+                        o.count("decided:sample_and_update_independent_columns")
                     if _exceeds(tgt_code - exp_t, tol_t):
                         w = _wit(tgt_code - exp_t, tol_t)
                         j = w["index"][1]
                         mech = "sample_and_update:target_differs_from_mean_plus_z_std"
                         if mask is not None and mask[j]:
                             mech = "sample_and_update:mean_imputed_column_not_predictive_mean"
+                        elif m > 1 and mask is None:
+                            # every column explained by ONE variate (the first draw)? => not independent
+                            shared = rm64 + zz[0, 0] * std
+                            if not _exceeds(tgt_code - shared, tol_m + abs(zz[0, 0]) * (tol_v / (2 * std) + 4 * EPS * std)):
+                                mech = "sample_and_update:one_variate_shared_by_all_fantasy_columns"
                         o.violate("sample_and_update", mech, dict(w, cond=dense.cond, z=float(zz[0, j]), std=std))
                 elif dense.ok:
                     o.inconclusive("cond_too_large")
